@@ -340,6 +340,10 @@ type liveRun struct {
 	ent      map[int]*entState
 	S        int
 	zvals    map[int]map[int]bool // zero-initialised variables: possible current values
+	libUP    map[int]int          // library package -> last value of its UP counter
+	libFirst map[int]bool         // library package -> Early() reached the package's own print at its first observation
+	upSeen   bool                 // early() reached the package's own print in the current probe
+	upFirst  int                  // 0 = not observed yet, 1 = own print, 2 = builtin
 	detached map[int]bool         // entities whose earlier captured references may have been disconnected by damaged code
 	prLen    map[int]int          // print length of each type's instances at first observation
 	nLo, nHi map[int]int
@@ -374,7 +378,7 @@ func (live) Execute(plan any, keep bool) *core.Result {
 	disk := core.NewSimDisk(files, hist)
 	disk.Rich, disk.Chunk, disk.Mute = p.Rich, p.Chunk, !keep
 	run := &liveRun{p: p, w: w, res: res, table: w.lineTable(), infra: map[string]bool{}, ent: map[int]*entState{},
-		zvals: map[int]map[int]bool{}, prLen: map[int]int{}, detached: map[int]bool{}, nLo: map[int]int{}, nHi: map[int]int{}, refsUp: map[string]bool{}, seen: map[string]int{}, hostFV: map[int]goatlang.Value{}}
+		zvals: map[int]map[int]bool{}, prLen: map[int]int{}, libUP: map[int]int{}, libFirst: map[int]bool{}, detached: map[int]bool{}, nLo: map[int]int{}, nHi: map[int]int{}, refsUp: map[string]bool{}, seen: map[string]int{}, hostFV: map[int]goatlang.Value{}}
 	for pk := range w.Pkgs {
 		for _, h := range w.entHeader(pk) {
 			run.infra[h] = true
@@ -483,7 +487,13 @@ func (run *liveRun) step(s *LStep, viaYield int) {
 		run.abs = append(run.abs, "ci")
 	case "captureRefs":
 		if _, err := run.h.Call("main.captureRefs", 0); err == nil {
-			run.detached = map[int]bool{}
+			// references captured now are connected again -- unless the entity is still in the state
+			// damaged code left it in (then what was captured is whatever that code stored there)
+			for id := range run.detached {
+				if st := run.ent[id]; st != nil && !st.unknown {
+					delete(run.detached, id)
+				}
+			}
 			for _, id := range run.w.FV {
 				run.refsUp[fmt.Sprintf("fv%d", id)] = true
 				// the host keeps a reference too (an embedding program caching a callback)
@@ -517,7 +527,7 @@ func (run *liveRun) step(s *LStep, viaYield int) {
 	case "probe", "main", "sorted":
 		name := "main." + s.Kind
 		_, err := run.h.Call(name, 0)
-		if err != nil && !run.poisoned && !core.IsBudget(err) && !run.anyUnknown() {
+		if err != nil && !run.poisoned && !core.IsBudget(err) && !run.anyUnknown() && len(run.detached) == 0 {
 			run.fail("C17/newcode", "call-failed", "calling %s failed although every entity has a loaded definition: %v", name, firstLine(err.Error()))
 		}
 		if s.Kind == "probe" && err == nil {
@@ -535,6 +545,21 @@ func (run *liveRun) step(s *LStep, viaYield int) {
 					continue
 				}
 				run.obs("hv", id, rets[0])
+			}
+			// package variables of function type, called by name from the host at every probe
+			for _, en := range run.w.Ents {
+				if en.Kind != "fvar" {
+					continue
+				}
+				name := run.w.Pkgs[en.Pkg].Path + "." + en.name()
+				rets, err := run.h.Call(name, 1)
+				if err != nil || len(rets) != 1 {
+					if st := run.ent[en.ID]; !run.poisoned && !run.anyUnknown() && !core.IsBudget(err) && st != nil && !st.unknown {
+						run.fail("C17/newcode", "host-call-by-name-failed", "Call(%q) on a package variable of function type failed: %v", name, err)
+					}
+					continue
+				}
+				run.obs("hn", en.ID, rets[0])
 			}
 		}
 		run.abs = append(run.abs, fmt.Sprintf("%s/%d", s.Kind, run.h.MaxDepth))
@@ -944,7 +969,7 @@ func (run *liveRun) obs(kind string, id int, val goatlang.Value) {
 		return
 	}
 	switch kind {
-	case "d", "fv", "bm", "sf", "im", "iv", "hv":
+	case "d", "fv", "bm", "sf", "im", "iv", "hv", "hn":
 		if run.detached[id] && kind != "d" && kind != "iv" && kind != "im" {
 			run.setObs++
 			return
@@ -960,7 +985,7 @@ func (run *liveRun) obs(kind string, id int, val goatlang.Value) {
 		ver := (v - id) / 1000
 		if v != tag(ver, id) || !st.vers[ver] {
 			rule := "C17/newcode"
-			what := map[string]string{"d": "a direct call", "fv": "a function value captured before the reload", "bm": "a bound method captured before the reload", "sf": "a function stored in a struct field before the reload", "im": "a method call on an instance created before the reload", "iv": "a variable declared with an initialiser", "hv": "a function value fetched by the host with Get before the reload, called with Func"}[kind]
+			what := map[string]string{"d": "a direct call", "fv": "a function value captured before the reload", "bm": "a bound method captured before the reload", "sf": "a function stored in a struct field before the reload", "im": "a method call on an instance created before the reload", "iv": "a variable declared with an initialiser", "hv": "a function value fetched by the host with Get before the reload, called with Func", "hn": "the host's Call by name of a package variable of function type"}[kind]
 			if kind == "iv" {
 				rule = "C17/reinit"
 			}
@@ -1032,6 +1057,27 @@ func (run *liveRun) obs(kind string, id int, val goatlang.Value) {
 			}
 			run.fail("C17/keep", "print-shape", "fmt.Sprint of %s of type T%d (declared in a file that never changes) is %d bytes long, it was %d bytes at its first observation", what, id%100, v, first)
 		}
+	case "le":
+		// the same pair in a library package: UP grows by 7 when Early() reaches the package's own print
+		own := v != run.libUP[id]
+		run.libUP[id] = v
+		if first, seen := run.libFirst[id]; !seen {
+			run.libFirst[id] = own
+		} else if first != own {
+			run.fail("C17/keep", "unchanged-function-rebound", "Early() { print(7) } in the never-edited file of library package %d reached %s at its first observation and reaches %s now", id, map[bool]string{true: "the package's own print", false: "the builtin print"}[first], map[bool]string{true: "the package's own print", false: "the builtin print"}[own])
+		}
+	case "eb":
+		run.upSeen = false
+	case "up":
+		run.upSeen = true
+	case "ee":
+		// early() stands above the package's own print(): whichever print it reaches, it reaches the
+		// same one after every reload of this never-edited file
+		if run.upFirst == 0 {
+			run.upFirst = map[bool]int{true: 1, false: 2}[run.upSeen]
+		} else if (run.upFirst == 1) != run.upSeen {
+			run.fail("C17/keep", "unchanged-function-rebound", "early() { print(7) } in the never-edited file reached %s at its first observation and reaches %s now", map[bool]string{true: "the package's own print", false: "the builtin print"}[run.upFirst == 1], map[bool]string{true: "the package's own print", false: "the builtin print"}[run.upSeen])
+		}
 	case "sn":
 		want := 1
 		if run.instUp {
@@ -1094,6 +1140,8 @@ func (run *liveRun) checkComplete() {
 			need(fmt.Sprintf("bk%d", e.ID), "variable")
 		case "proc":
 			need(fmt.Sprintf("pc%d", e.ID), "function")
+		case "fvar":
+			need(fmt.Sprintf("d%d", e.ID), "variable")
 		case "method":
 			if run.instUp {
 				need(fmt.Sprintf("im%d", e.ID), "instance")
